@@ -214,6 +214,9 @@ def cells():
         "public constructor(long z0) -> Animal { this.fin2 = 1; }", wrap=False)
     add("R2", "final static without initialiser", "ANIMAL_FIELDS", "public static final int SF2;", "public static final int SF2 = 1;", wrap=False)
     add("R2", "final local without initialiser", "MAIN", "final int t0;", "final int t0 = 1;")
+    for slot, fld in (("ANIMAL_METHOD", "legs"), ("DOG_METHOD", "legs"), ("DOG_METHOD", "tail"), ("ANIMAL_STATIC", "count")):
+        add("R2", f"final local initialised from the bare field {fld}, then assigned", slot, f"final int t0 = {fld}; t0 = 2;",
+            f"final int t0 = {fld}; echo(t0);")
 
     # R3 visibility
     for slot, who, obj in (("MAIN", "function", "va"), ("FUNC", "function", "pa"), ("OTHER_METHOD", "unrelated class", "a0")):
